@@ -170,6 +170,9 @@ def compare_logs(tr):
     'too slow' RuntimeError is the one permitted difference: everything before it must be identical."""
     a, b = tr["log"], tr["ref_log"]
     if a == b:
+        if tr["final"] != tr["ref_final"]:
+            return len(a), "the end: same log, but the final states of the events differ: RealtimeEnvironment %s / Environment %s" % (
+                json.dumps(tr["final"]), json.dumps(tr["ref_final"]))
         return None
     pos = next((i for i, (x, y) in enumerate(zip(a, b)) if x != y), min(len(a), len(b)))
     if slow_raised(tr) and tr["cfg"]["strict"] == 1 and pos < len(a) and a[pos]["k"] == "X" and a[pos]["v"]["k"] == "RuntimeError":
@@ -275,7 +278,7 @@ def evaluate(ctx, scs, traces, kernel_limit=None, jvms=None):
     idx = [i for i, t in enumerate(traces) if t["cfg"]["t0"] == 0 and not slow_raised(t) and i not in bad]
     if kernel_limit is not None and len(idx) > kernel_limit:
         idx = sorted(ctx.rng.sample(idx, kernel_limit))
-    ktr = [{"scripts": traces[i]["scripts"], "log": traces[i]["log"]} for i in idx]
+    ktr = [{"scripts": traces[i]["scripts"], "log": traces[i]["log"], "final": traces[i]["final"]} for i in idx]
     kst = ctx.validate("KernelTrace", "KernelTrace.cfg", "kernel", ktr, shard=150, workers=jvms) if ktr else {}
     ctx.extra["rt_logs_validated_against_SimKernel"] = ctx.extra.get("rt_logs_validated_against_SimKernel", 0) + len(ktr)
     for j in sorted(kst):
